@@ -251,9 +251,20 @@ class SqlalchemyRender:
                 order_by = []
                 for f in t.order_by:
                     col0 = self.to_expression(f.field)
-                    if f.direction == 'DESC':
+                    # the same as for the ORDER BY of a select: direction in any letter case, NULLS FIRST / LAST
+                    if f.direction.upper() == 'DESC':
                         col0 = col0.desc()
+                    elif f.direction.upper() == 'ASC':
+                        col0 = col0.asc()
+                    if f.nulls.upper() == 'NULLS FIRST':
+                        col0 = sa.nullsfirst(col0)
+                    elif f.nulls.upper() == 'NULLS LAST':
+                        col0 = sa.nullslast(col0)
                     order_by.append(col0)
+
+            if getattr(t, 'modifier', None):
+                # a frame clause (ROWS BETWEEN ..) cannot be passed on: do not drop it silently
+                raise NotImplementedError(f'Window frame is not supported: {t.modifier}')
 
             col = sa.over(
                 func,
